@@ -369,9 +369,18 @@ def c05_predefined(ctx):
     from rules.shared import cfg_accessors, cfg_zones
     cfg_accessors(ctx, only=('predefined_memory_zones',))
     cfg_zones(ctx)
+    from rules.shared import exact_lookup
+    ctx.rule('C05.7', 'a zone is selected by exactly the name written', 1)
+    exact_lookup(ctx, 'bespokeasm.assembler.memory_zone.manager.MemoryZoneManager.zone', '_zones', 'a memory zone', 'lookup:zone-by-exact-name')
 
 
-RULES = [c05_predefined, c05_1, c05_2, c05_3, c05_4, c05_5, zone_provenance]
+def c05_state(ctx):
+    """Per-statement / per-lookup properties presuppose that nothing is remembered between statements beyond the reviewed state."""
+    from rules.shared import state_discipline
+    state_discipline(ctx, ('bespokeasm.assembler.memory_zone', 'bespokeasm.assembler.line_object.directive_line', 'bespokeasm.assembler.assembly_file', 'bespokeasm.assembler.line_object.preprocessor_line.create_memzone'))
+
+
+RULES = [c05_predefined, c05_1, c05_2, c05_3, c05_4, c05_5, zone_provenance, c05_state]
 
 # ---------------------------------------------------------------------- self-test variants
 from engine.selftest import V  # noqa: E402
@@ -381,6 +390,7 @@ _MG = 'assembler/memory_zone/manager.py'
 _AF = 'assembler/assembly_file.py'
 _AD = 'assembler/line_object/directive_line/address.py'
 MUTANTS = [
+    V('c05-zone-lookup-folds-case', 'assembler/memory_zone/manager.py', "        return self._zones.get(name, None)", "        if name.upper() == GLOBAL_ZONE_NAME:\n            return self.global_zone\n        return self._zones.get(name, None)", 'C05.7'),
     V('c05-predefined-zone-end-exclusive', 'assembler/memory_zone/manager.py', "mz['name']: MemoryZone(address_bits, mz['start'], mz['end'], mz['name'])", "mz['name']: MemoryZone(address_bits, mz['start'], mz['end'] - 1, mz['name'])", 'CFG.4'),
     V('c05-predefined-zone-skips-global', 'assembler/memory_zone/manager.py', "            for mz in predefined_zones\n", "            for mz in predefined_zones if mz['name'] != GLOBAL_ZONE_NAME\n", 'CFG.4'),
     V('c05-upper+2', _MZ, 'if value > self.end + 1:', 'if value > self.end + 2:', 'C05.1'),
